@@ -41,6 +41,17 @@ CLAIMED['C06'] = dict(
          'parameters, nested try exits, ternary double counting) are in the lowering, outside K1.',
     ref='§4 C06')
 
+CLAIMED['C04'] = dict(
+    text='Decides with Z3 over the real MIR: C04.K1 the slot depth the optimiser writes into PushHandler equals the run-time depth '
+         '(callee slot + parameters + net effect of preceding instructions; entry value plus one inductive step over an arbitrary '
+         'program); C04.K2 Fiber::stack_unwind from an arbitrary fiber picks the innermost handler, honours the native boundary, '
+         'restores frame, stack top = frame start + slot depth and ip = chunk start + offset; C04.K3 op_check_handler / op_raise / '
+         'op_pop_handler / op_continue_unwind / op_get_error / op_push_handler behave as the source rules prescribe for every '
+         'operand. The try/catch lowering (exactly-n handlers popped on every exit) is not yet machine checked.',
+    note='Trusted: rustc MIR printer, mirsym, abstract object identities (vmabs.py), uninterpreted is_subclass/class_of, Z3. '
+         'Known design-level findings F5/F6 live in the lowering, outside these kernels.',
+    ref='§4 C04')
+
 NOT_APPLICABLE = {
     'C08': 'global liveness of the fiber scheduler needs the running Vm (DESIGN.md §6); no bounded symbolic encoding of the real scheduler is within reach',
 }
